@@ -144,9 +144,9 @@ theorem scan_layout (es : List Entry) : ∀ (A g : Bytes) (f : Bytes) (cur last 
     simp only [d1, d2, d3, leDec_leEnc8 hve.1, leDec_leEnc8 hve.2]
 
 /-- Reopening a disk that satisfies the invariant yields its entries and changes nothing. -/
-theorem openDisk_of_DInv {d : Disk} {es} (h : DInv d.file es) :
-    openDisk d = .ok ({ disk := d, entries := es, cur := 40 + encLen es, mci := d.metaFile,
-                        metaSaved := true }, []) := by
+theorem openDisk_of_DInv {d : Disk} {es} (ver : Bytes) (h : DInv d.file es) :
+    openDisk ver d = .ok ({ disk := d, entries := es, cur := 40 + encLen es,
+                            mci := d.metaFile, metaSaved := true, ver := ver }, []) := by
   obtain ⟨hl, hv, hsz⟩ := h
   have hne : ¬ d.file.length = 0 := by omega
   have hns : ¬ d.file.length < INITIAL_SIZE := by simp [INITIAL_SIZE]; omega
